@@ -317,7 +317,16 @@ theorem execE_subst (hK : KeysIn ρ K) (s : Stmt) :
       cases h : ρ v with
       | loc y => simp [bindRole, loopVar]
       | free => simp [bindRole, loopVar]
-      | formal p a => simp [loopRole, h] at hv
+      | formal p a =>
+        cases a with
+        | var y => simp [bindRole, bindActual, loopVar]
+        | elem1 a i => simp [loopRole, h] at hv
+        | elem2 a i j => simp [loopRole, h] at hv
+        | expr e => simp [loopRole, h] at hv
+        | sec1 a st u => simp [loopRole, h] at hv
+        | sec2 a st1 st2 u => simp [loopRole, h] at hv
+        | col a st j u => simp [loopRole, h] at hv
+        | row a i st u => simp [loopRole, h] at hv
     · intro τ x hτ y hy i j
       rw [Store.set_apply, if_neg]
       · exact hτ y hy i j
@@ -355,5 +364,322 @@ theorem exec_subst_eq_execCall (fr : Nat → Nat) (c : Call)
   unfold execCall
   rw [← envR_roleOf]
   exact (execE_subst (keysIn_roleOf fr c) c.body (AgreeOn.refl _ σ) hok hst).symm
+
+/-! ## what the inlined body writes -/
+
+theorem findFormal_isSome {ps : List Param} {as : List Actual} {x : Nat} (hlen : ps.length ≤ as.length)
+    (hx : x ∈ ps.map Param.name) : (findFormal ps as x).isSome = true := by
+  induction ps generalizing as with
+  | nil => simp at hx
+  | cons q qs ih =>
+    cases as with
+    | nil => simp at hlen
+    | cons b bs =>
+      simp only [findFormal]
+      split
+      · rfl
+      · rename_i hne
+        simp only [List.map_cons, List.mem_cons] at hx
+        rcases hx with hx | hx
+        · exact absurd hx.symm hne
+        · exact ih (by simpa using hlen) hx
+
+theorem wvars_subset_stmtVars (s : Stmt) : ∀ x ∈ wvars s, x ∈ stmtVars s := by
+  induction s with
+  | skip => intro x hx; cases hx
+  | seq a b iha ihb =>
+    intro x hx
+    simp only [wvars, stmtVars, List.mem_append] at hx ⊢
+    rcases hx with h | h
+    · exact Or.inl (iha x h)
+    · exact Or.inr (ihb x h)
+  | assign y e => intro x hx; simp [wvars, stmtVars] at hx ⊢; exact Or.inl hx
+  | store1 a i e => intro x hx; simp [wvars, stmtVars] at hx ⊢; exact Or.inl hx
+  | store2 a i j e => intro x hx; simp [wvars, stmtVars] at hx ⊢; exact Or.inl hx
+  | ite c t f iht ihf =>
+    intro x hx
+    simp only [wvars, stmtVars, List.mem_append] at hx ⊢
+    rcases hx with h | h
+    · exact Or.inl (Or.inr (iht x h))
+    · exact Or.inr (ihf x h)
+  | loop v lo hi st b ih =>
+    intro x hx
+    simp only [wvars, stmtVars, List.mem_cons, List.mem_append] at hx ⊢
+    rcases hx with h | h
+    · exact Or.inl h
+    · exact Or.inr (Or.inr (ih x h))
+
+/-- a name written by the callee is never a dummy associated with an expression -/
+def NotExprRole : Role → Prop
+  | .formal _ (.expr _) => False
+  | _ => True
+
+/-- every variable written by the substituted body is the `target` of a name the body writes -/
+theorem wvars_substS (ρ : Nat → Role) (s : Stmt) (hok : okS ρ s = true) :
+    ∀ x ∈ wvars (substS ρ s), ∃ y ∈ wvars s, x = target (ρ y) y ∧ NotExprRole (ρ y) := by
+  induction s with
+  | skip => intro x hx; simp [substS, wvars] at hx
+  | seq a b iha ihb =>
+    simp only [okS, Bool.and_eq_true] at hok
+    intro x hx
+    simp only [substS, wvars, List.mem_append] at hx
+    rcases hx with h | h
+    · obtain ⟨y, hy, e⟩ := iha hok.1 x h
+      exact ⟨y, by simp [wvars, hy], e⟩
+    · obtain ⟨y, hy, e⟩ := ihb hok.2 x h
+      exact ⟨y, by simp [wvars, hy], e⟩
+  | assign y e =>
+    simp only [okS, Bool.and_eq_true] at hok
+    intro x hx
+    refine ⟨y, by simp [wvars], ?_⟩
+    simp only [substS] at hx
+    cases h : ρ y with
+    | loc z => simp_all [substRef0, assignTo, wvars, target, NotExprRole]
+    | free => simp_all [substRef0, assignTo, wvars, target, NotExprRole]
+    | formal p a =>
+      cases a <;> simp_all [substRef0, assignTo, wvars, target, actualBase, NotExprRole, definableScalarRole]
+  | store1 y i e =>
+    simp only [okS, Bool.and_eq_true] at hok
+    intro x hx
+    refine ⟨y, by simp [wvars], ?_⟩
+    simp only [substS] at hx
+    cases h : ρ y with
+    | loc z => simp_all [substRef1, assignTo, wvars, target, NotExprRole]
+    | free => simp_all [substRef1, assignTo, wvars, target, NotExprRole]
+    | formal p a =>
+      cases a <;> simp_all [substRef1, assignTo, wvars, target, actualBase, NotExprRole, rank1Role]
+  | store2 y i j e =>
+    simp only [okS, Bool.and_eq_true] at hok
+    intro x hx
+    refine ⟨y, by simp [wvars], ?_⟩
+    simp only [substS] at hx
+    cases h : ρ y with
+    | loc z => simp_all [substRef2, assignTo, wvars, target, NotExprRole]
+    | free => simp_all [substRef2, assignTo, wvars, target, NotExprRole]
+    | formal p a =>
+      cases a <;> simp_all [substRef2, assignTo, wvars, target, actualBase, NotExprRole, rank2Role]
+  | ite c t f iht ihf =>
+    simp only [okS, Bool.and_eq_true] at hok
+    intro x hx
+    simp only [substS, wvars, List.mem_append] at hx
+    rcases hx with h | h
+    · obtain ⟨y, hy, e⟩ := iht hok.1.2 x h
+      exact ⟨y, by simp [wvars, hy], e⟩
+    · obtain ⟨y, hy, e⟩ := ihf hok.2 x h
+      exact ⟨y, by simp [wvars, hy], e⟩
+  | loop v lo hi st b ih =>
+    simp only [okS, Bool.and_eq_true] at hok
+    intro x hx
+    simp only [substS, wvars, List.mem_cons] at hx
+    rcases hx with h | h
+    · refine ⟨v, by simp [wvars], ?_⟩
+      have hv := hok.1.1.1.1
+      cases hr : ρ v with
+      | loc z => simp_all [loopVar, target, NotExprRole]
+      | free => simp_all [loopVar, target, NotExprRole]
+      | formal p a => cases a <;> simp_all [loopVar, target, actualBase, NotExprRole, loopRole]
+    · obtain ⟨y, hy, e⟩ := ih hok.2 x h
+      exact ⟨y, by simp [wvars, hy], e⟩
+
+/-! ## independence of the callee frame
+
+Two runs of the same body, with the same bindings for the formals, the callee locals placed in
+two different frames outside the variables `V`, on stores that agree on `V` and hold the same
+contents in corresponding frame cells, stay related. -/
+
+section frame
+variable (V : Nat → Prop) (L : List Nat) (fr₁ fr₂ : Nat → Nat)
+
+inductive BindRel : Bind → Bind → Prop
+  | shared (f : Int → Int → Loc) (h : ∀ i j, V (f i j).1) : BindRel (.ref f) (.ref f)
+  | val (v : Int) : BindRel (.val v) (.val v)
+  | frame (l : Nat) (h : l ∈ L) : BindRel (.ref fun i j => (fr₁ l, i, j)) (.ref fun i j => (fr₂ l, i, j))
+
+structure StoreRel (σ₁ σ₂ : Store) : Prop where
+  vis : ∀ x, V x → ∀ i j, σ₁ (x, i, j) = σ₂ (x, i, j)
+  frm : ∀ l ∈ L, ∀ i j, σ₁ (fr₁ l, i, j) = σ₂ (fr₂ l, i, j)
+
+structure FrameOK : Prop where
+  out₁ : ∀ l ∈ L, ¬ V (fr₁ l)
+  out₂ : ∀ l ∈ L, ¬ V (fr₂ l)
+  inj₁ : ∀ l ∈ L, ∀ l' ∈ L, fr₁ l = fr₁ l' → l = l'
+  inj₂ : ∀ l ∈ L, ∀ l' ∈ L, fr₂ l = fr₂ l' → l = l'
+
+variable {V L fr₁ fr₂}
+
+theorem rd_rel {env₁ env₂ : Env} {σ₁ σ₂ : Store} {x : Nat} (hb : BindRel V L fr₁ fr₂ (env₁ x) (env₂ x))
+    (hs : StoreRel V L fr₁ fr₂ σ₁ σ₂) (i j : Int) : rd env₁ σ₁ x i j = rd env₂ σ₂ x i j := by
+  unfold rd
+  generalize env₁ x = b₁ at hb
+  generalize env₂ x = b₂ at hb
+  cases hb with
+  | shared f h => exact hs.vis _ (h i j) _ _
+  | val v => rfl
+  | frame l h => exact hs.frm l h i j
+
+theorem wr_rel (hf : FrameOK V L fr₁ fr₂) {env₁ env₂ : Env} {σ₁ σ₂ : Store} {x : Nat}
+    (hb : BindRel V L fr₁ fr₂ (env₁ x) (env₂ x)) (hs : StoreRel V L fr₁ fr₂ σ₁ σ₂) (i j v : Int) :
+    StoreRel V L fr₁ fr₂ (wr env₁ σ₁ x i j v) (wr env₂ σ₂ x i j v) := by
+  unfold wr
+  generalize env₁ x = b₁ at hb
+  generalize env₂ x = b₂ at hb
+  cases hb with
+  | shared f h =>
+    constructor
+    · intro y hy i' j'
+      simp only [Store.set_apply]
+      split
+      · rfl
+      · exact hs.vis y hy i' j'
+    · intro l hl i' j'
+      simp only [Store.set_apply]
+      rw [if_neg, if_neg]
+      · exact hs.frm l hl i' j'
+      · intro heq
+        exact hf.out₂ l hl (by have := h i j; rw [← heq] at this; exact this)
+      · intro heq
+        exact hf.out₁ l hl (by have := h i j; rw [← heq] at this; exact this)
+  | val v' => exact hs
+  | frame l hl =>
+    constructor
+    · intro y hy i' j'
+      simp only [Store.set_apply]
+      rw [if_neg, if_neg]
+      · exact hs.vis y hy i' j'
+      · intro heq
+        exact hf.out₂ l hl (by have : y = fr₂ l := congrArg Prod.fst heq; rw [← this]; exact hy)
+      · intro heq
+        exact hf.out₁ l hl (by have : y = fr₁ l := congrArg Prod.fst heq; rw [← this]; exact hy)
+    · intro l' hl' i' j'
+      simp only [Store.set_apply]
+      by_cases hll : l' = l
+      · subst hll
+        by_cases hij : (i', j') = (i, j)
+        · have h1 : ((fr₁ l', i', j') : Loc) = (fr₁ l', i, j) := by rw [Prod.mk.injEq] at hij ⊢; simp [hij.1, hij.2]
+          have h2 : ((fr₂ l', i', j') : Loc) = (fr₂ l', i, j) := by rw [Prod.mk.injEq] at hij ⊢; simp [hij.1, hij.2]
+          rw [if_pos h1, if_pos h2]
+        · rw [if_neg, if_neg]
+          · exact hs.frm l' hl' i' j'
+          · intro heq; apply hij; exact congrArg Prod.snd heq
+          · intro heq; apply hij; exact congrArg Prod.snd heq
+      · rw [if_neg, if_neg]
+        · exact hs.frm l' hl' i' j'
+        · intro heq; exact hll (hf.inj₂ l' hl' l hl (congrArg Prod.fst heq))
+        · intro heq; exact hll (hf.inj₁ l' hl' l hl (congrArg Prod.fst heq))
+
+theorem evalE_rel {env₁ env₂ : Env} {σ₁ σ₂ : Store} (hs : StoreRel V L fr₁ fr₂ σ₁ σ₂) (e : Expr)
+    (hb : ∀ x ∈ exprVars e, BindRel V L fr₁ fr₂ (env₁ x) (env₂ x)) : evalE env₁ e σ₁ = evalE env₂ e σ₂ := by
+  induction e with
+  | lit n => rfl
+  | var x => exact rd_rel (hb x (by simp [exprVars])) hs 0 0
+  | idx1 a i ih =>
+    simp only [evalE]
+    rw [ih (fun x hx => hb x (by simp [exprVars, hx]))]
+    exact rd_rel (hb a (by simp [exprVars])) hs _ _
+  | idx2 a i j ihi ihj =>
+    simp only [evalE]
+    rw [ihi (fun x hx => hb x (by simp [exprVars, hx])), ihj (fun x hx => hb x (by simp [exprVars, hx]))]
+    exact rd_rel (hb a (by simp [exprVars])) hs _ _
+  | un op e ih => simp only [evalE, ih (fun x hx => hb x (by simpa [exprVars] using hx))]
+  | bin op a b iha ihb =>
+    simp only [evalE, iha (fun x hx => hb x (by simp [exprVars, hx])), ihb (fun x hx => hb x (by simp [exprVars, hx]))]
+
+theorem runItersG_rel (R : Store → Store → Prop) {set₁ set₂ : Store → Int → Store} {f₁ f₂ : Store → Store}
+    (hset : ∀ τ₁ τ₂ x, R τ₁ τ₂ → R (set₁ τ₁ x) (set₂ τ₂ x)) (hf : ∀ τ₁ τ₂, R τ₁ τ₂ → R (f₁ τ₁) (f₂ τ₂))
+    (lo step : Int) : ∀ n k σ₁ σ₂, R σ₁ σ₂ →
+      R (runItersG set₁ f₁ lo step n k σ₁) (runItersG set₂ f₂ lo step n k σ₂) := by
+  intro n
+  induction n with
+  | zero => intro k σ₁ σ₂ h; exact hset _ _ _ h
+  | succ n ih => intro k σ₁ σ₂ h; exact ih _ _ _ (hf _ _ (hset _ _ _ h))
+
+theorem execE_rel (hf : FrameOK V L fr₁ fr₂) {env₁ env₂ : Env} (s : Stmt) :
+    ∀ {σ₁ σ₂ : Store}, StoreRel V L fr₁ fr₂ σ₁ σ₂ →
+      (∀ x ∈ stmtVars s, BindRel V L fr₁ fr₂ (env₁ x) (env₂ x)) →
+      StoreRel V L fr₁ fr₂ (execE env₁ s σ₁) (execE env₂ s σ₂) := by
+  induction s with
+  | skip => intro σ₁ σ₂ hs _; exact hs
+  | seq a b iha ihb =>
+    intro σ₁ σ₂ hs hb
+    simp only [execE]
+    exact ihb (iha hs (fun x hx => hb x (by simp [stmtVars, hx]))) (fun x hx => hb x (by simp [stmtVars, hx]))
+  | assign y e =>
+    intro σ₁ σ₂ hs hb
+    simp only [execE]
+    rw [evalE_rel hs e (fun x hx => hb x (by simp [stmtVars, hx]))]
+    exact wr_rel hf (hb y (by simp [stmtVars])) hs _ _ _
+  | store1 a i e =>
+    intro σ₁ σ₂ hs hb
+    simp only [execE]
+    rw [evalE_rel hs e (fun x hx => hb x (by simp [stmtVars, hx])),
+      evalE_rel hs i (fun x hx => hb x (by simp [stmtVars, hx]))]
+    exact wr_rel hf (hb a (by simp [stmtVars])) hs _ _ _
+  | store2 a i j e =>
+    intro σ₁ σ₂ hs hb
+    simp only [execE]
+    rw [evalE_rel hs e (fun x hx => hb x (by simp [stmtVars, hx])),
+      evalE_rel hs i (fun x hx => hb x (by simp [stmtVars, hx])),
+      evalE_rel hs j (fun x hx => hb x (by simp [stmtVars, hx]))]
+    exact wr_rel hf (hb a (by simp [stmtVars])) hs _ _ _
+  | ite c t f iht ihf =>
+    intro σ₁ σ₂ hs hb
+    simp only [execE]
+    rw [evalE_rel hs c (fun x hx => hb x (by simp [stmtVars, hx]))]
+    split
+    · exact iht hs (fun x hx => hb x (by simp [stmtVars, hx]))
+    · exact ihf hs (fun x hx => hb x (by simp [stmtVars, hx]))
+  | loop v lo hi st b ih =>
+    intro σ₁ σ₂ hs hb
+    simp only [execE]
+    rw [evalE_rel hs lo (fun x hx => hb x (by simp [stmtVars, hx])),
+      evalE_rel hs hi (fun x hx => hb x (by simp [stmtVars, hx])),
+      evalE_rel hs st (fun x hx => hb x (by simp [stmtVars, hx]))]
+    apply runItersG_rel (StoreRel V L fr₁ fr₂)
+    · intro τ₁ τ₂ x hτ
+      exact wr_rel hf (hb v (by simp [stmtVars])) hτ _ _ _
+    · intro τ₁ τ₂ hτ
+      exact ih hτ (fun x hx => hb x (by simp [stmtVars, hx]))
+    · exact hs
+
+end frame
+
+/-- the bindings of the formals of a well-scoped call do not depend on the frame, and agree for
+two stores that agree on the visible variables -/
+theorem bindActual_rel {c : Call} {fr₁ fr₂ : Nat → Nat} {σ₁ σ₂ : Store} (p : Param) (a : Actual)
+    (hsc : ∀ v ∈ actualVars a, v ∈ visible c)
+    (hvis : ∀ x, x ∈ visible c → ∀ i j, σ₁ (x, i, j) = σ₂ (x, i, j)) :
+    BindRel (fun x => x ∈ visible c) c.locals fr₁ fr₂ (bindActual σ₁ p a) (bindActual σ₂ p a) := by
+  have hev : ∀ e : Expr, (∀ v ∈ exprVars e, v ∈ actualKeyVars a) → eval e σ₁ = eval e σ₂ := by
+    intro e he
+    apply eval_congr (V := fun x => x ∈ visible c)
+    · intro v hv
+      exact hsc v (by simp only [actualVars, List.mem_append]; exact Or.inr (he v (by rw [exprVars_eq]; exact hv)))
+    · exact hvis
+  have hbase : ∀ b, actualBase a = some b → b ∈ visible c := by
+    intro b hb
+    exact hsc b (by simp [actualVars, hb])
+  cases a with
+  | var y => exact .shared _ (fun _ _ => hbase y rfl)
+  | elem1 a i =>
+    simp only [bindActual, hev i (by intro v hv; simpa [actualKeyVars] using hv)]
+    exact .shared _ (fun _ _ => hbase a rfl)
+  | elem2 a i j =>
+    simp only [bindActual, hev i (by intro v hv; simp [actualKeyVars, hv]), hev j (by intro v hv; simp [actualKeyVars, hv])]
+    exact .shared _ (fun _ _ => hbase a rfl)
+  | expr e =>
+    simp only [bindActual, hev e (by intro v hv; simpa [actualKeyVars] using hv)]
+    exact .val _
+  | sec1 a st u =>
+    simp only [bindActual, hev st (by intro v hv; simpa [actualKeyVars] using hv)]
+    exact .shared _ (fun _ _ => hbase a rfl)
+  | sec2 a st1 st2 u =>
+    simp only [bindActual, hev st1 (by intro v hv; simp [actualKeyVars, hv]), hev st2 (by intro v hv; simp [actualKeyVars, hv])]
+    exact .shared _ (fun _ _ => hbase a rfl)
+  | col a st j u =>
+    simp only [bindActual, hev st (by intro v hv; simp [actualKeyVars, hv]), hev j (by intro v hv; simp [actualKeyVars, hv])]
+    exact .shared _ (fun _ _ => hbase a rfl)
+  | row a i st u =>
+    simp only [bindActual, hev st (by intro v hv; simp [actualKeyVars, hv]), hev i (by intro v hv; simp [actualKeyVars, hv])]
+    exact .shared _ (fun _ _ => hbase a rfl)
 
 end C07
